@@ -126,6 +126,25 @@ func Load(repo string, extDir string) (*Program, error) {
 	return P, nil
 }
 
+// expandAuto adds the synthesized non-nil preconditions of an "auto" contract.
+func (P *Program) expandAuto(c *Contract, fn *ssa.Function) error {
+	for _, p := range fn.Params {
+		pt, ok := p.Type().Underlying().(*types.Pointer)
+		if !ok {
+			continue
+		}
+		if _, ok := pt.Elem().Underlying().(*types.Struct); !ok {
+			continue
+		}
+		cl, err := parseClause(c.File, c.Line, "[auto.nonnil] "+p.Name()+" != nil")
+		if err != nil {
+			return err
+		}
+		c.Requires = append(c.Requires, cl)
+	}
+	return nil
+}
+
 func (P *Program) addContract(c *Contract) error {
 	key := c.PkgPath + "::" + c.Name
 	if c.External {
@@ -135,8 +154,14 @@ func (P *Program) addContract(c *Contract) error {
 		return fmt.Errorf("%s:%d: duplicate contract for %s", c.File, c.Line, c.Name)
 	}
 	if !c.External {
-		if _, ok := P.funcs[key]; !ok {
+		fn, ok := P.funcs[key]
+		if !ok {
 			return fmt.Errorf("%s:%d: contract for unknown function %q (package %s)", c.File, c.Line, c.Name, c.PkgPath)
+		}
+		if c.Auto {
+			if err := P.expandAuto(c, fn); err != nil {
+				return err
+			}
 		}
 	}
 	P.Contracts[key] = c
@@ -229,3 +254,106 @@ func (P *Program) FindFuncs(sub string) []*ssa.Function {
 func (P *Program) PropertyNote(prop string) string { return propertyNotes[prop] }
 
 func (P *Program) PropertyAssumptions(prop string) []string { return propertyAssumptions[prop] }
+
+// CallTree lists the logg functions reachable from root through static calls (and closures made on the way).
+func (P *Program) CallTree(root string) []string {
+	fns := P.FindFuncs(root)
+	if len(fns) == 0 {
+		return nil
+	}
+	seen := map[*ssa.Function]bool{}
+	var out []string
+	var walk func(fn *ssa.Function, depth int)
+	walk = func(fn *ssa.Function, depth int) {
+		if seen[fn] || !P.isLogg(fn) {
+			return
+		}
+		seen[fn] = true
+		con := ""
+		if c := P.ContractOf(fn); c != nil {
+			con = " [contract]"
+			if c.Trusted {
+				con = " [trusted]"
+			}
+		}
+		nb, ni := len(fn.Blocks), 0
+		for _, b := range fn.Blocks {
+			ni += len(b.Instrs)
+		}
+		out = append(out, fmt.Sprintf("%s%s  (%d blocks, %d instrs)%s", strings.Repeat("  ", depth), P.fnKey(fn), nb, ni, con))
+		for _, b := range fn.Blocks {
+			for _, in := range b.Instrs {
+				switch x := in.(type) {
+				case ssa.CallInstruction:
+					if f, ok := x.Common().Value.(*ssa.Function); ok {
+						walk(f, depth+1)
+					}
+					if mc, ok := x.Common().Value.(*ssa.MakeClosure); ok {
+						walk(mc.Fn.(*ssa.Function), depth+1)
+					}
+				case *ssa.MakeClosure:
+					walk(x.Fn.(*ssa.Function), depth+1)
+				}
+			}
+		}
+	}
+	walk(fns[0], 0)
+	return out
+}
+
+// Sweep verifies every function of root's call tree; functions without a contract get a synthesized "auto" one.
+func (P *Program) Sweep(root string) []*FuncResult {
+	fns := P.FindFuncs(root)
+	if len(fns) == 0 {
+		return nil
+	}
+	seen := map[*ssa.Function]bool{}
+	var list []*ssa.Function
+	var walk func(fn *ssa.Function)
+	walk = func(fn *ssa.Function) {
+		if seen[fn] || !P.isLogg(fn) || len(fn.Blocks) == 0 {
+			return
+		}
+		seen[fn] = true
+		list = append(list, fn)
+		for _, b := range fn.Blocks {
+			for _, in := range b.Instrs {
+				switch x := in.(type) {
+				case ssa.CallInstruction:
+					if f, ok := x.Common().Value.(*ssa.Function); ok {
+						walk(f)
+					}
+				}
+			}
+		}
+	}
+	walk(fns[0])
+	for _, fn := range list {
+		if P.ContractOf(fn) == nil && fn.Synthetic == "" {
+			pkg := fn.Pkg
+			if pkg == nil && fn.Origin() != nil {
+				pkg = fn.Origin().Pkg
+			}
+			if pkg == nil {
+				continue
+			}
+			c := &Contract{Name: fn.RelString(pkg.Pkg), PkgPath: pkg.Pkg.Path(), Loops: map[int]*LoopSpec{}, Auto: true, AssignsAll: true, HasAssigns: true, NoGhost: true, File: "auto", Props: []string{"SWEEP"}}
+			P.expandAuto(c, fn)
+			P.Contracts[c.PkgPath+"::"+c.Name] = c
+		}
+	}
+	results := make([]*FuncResult, len(list))
+	var wg sync.WaitGroup
+	sem := make(chan struct{}, 16)
+	for i, fn := range list {
+		wg.Add(1)
+		go func(i int, fn *ssa.Function) {
+			defer wg.Done()
+			sem <- struct{}{}
+			defer func() { <-sem }()
+			results[i] = P.VerifyFunc(fn)
+		}(i, fn)
+	}
+	wg.Wait()
+	return results
+}
